@@ -7,9 +7,10 @@ from . import pysrc
 FETCH_T = "option Z -> option Z -> bool -> list ivl"
 
 # Gen/Source.v may mention the models' data types and library models (freq, zmem, sl_add, ...)
-# (Model.Slice first: its error type shares constructor names with Model.Loop's exn, which must win)
+# (Model.Metrics and Model.Slice first: Slice's error type shares constructor names with Model.Loop's exn,
+# which must win; both define a type `bound`: the sum-type specs below use qualified names)
 HEADER = pysrc.HEADER.replace("From CG Require Import Model.Loop.",
-                              "From CG Require Import Model.Slice Model.Loop Model.Recur Model.Cache.")
+                              "From CG Require Import Model.Metrics Model.Slice Model.Loop Model.Recur Model.Cache.")
 
 # self.freq is one of four strings: an enumeration (Model/Recur.v)
 FREQ = {"FREQ": ("freq_eqb", {"daily": "Daily", "weekly": "Weekly", "monthly": "Monthly", "yearly": "Yearly"})}
@@ -165,22 +166,28 @@ CORE = "calgebra/core.py"
 _B = {"{x} is None": ("false", "B"), "isinstance({x}, int)": ("false", "B"), "isinstance({x}, datetime)": ("false", "B"),
       "{x}.tzinfo is None": None, "int({x}.timestamp())": None}
 BOUND_SUM = {"BOUND": dict(
-    coq="bound",
-    ctors=[("BNone", []), ("BInt", [("z", "Z")]), ("BAware", [("t", "Z"), ("zone", "N")]), ("BNaive", []), ("BOther", [])],
-    exprs={"BNone": dict(_B, **{"{x} is None": ("true", "B")}),
-           "BInt": dict(_B, **{"isinstance({x}, int)": ("true", "B"), "{x}": ("{z}", "Z")}),
-           "BAware": dict(_B, **{"isinstance({x}, datetime)": ("true", "B"), "{x}.tzinfo is None": ("false", "B"),
-                                 "int({x}.timestamp())": ("{t}", "Z")}),
-           "BNaive": dict(_B, **{"isinstance({x}, datetime)": ("true", "B"), "{x}.tzinfo is None": ("true", "B")}),
-           "BOther": dict(_B)})}
+    coq="Slice.bound",
+    ctors=[("Slice.BNone", []), ("Slice.BInt", [("z", "Z")]), ("Slice.BAware", [("t", "Z"), ("zone", "N")]),
+           ("Slice.BNaive", []), ("Slice.BOther", [])],
+    exprs={"Slice.BNone": dict(_B, **{"{x} is None": ("true", "B")}),
+           "Slice.BInt": dict(_B, **{"isinstance({x}, int)": ("true", "B"), "{x}": ("{z}", "Z")}),
+           "Slice.BAware": dict(_B, **{"isinstance({x}, datetime)": ("true", "B"), "{x}.tzinfo is None": ("false", "B"),
+                                       "int({x}.timestamp())": ("{t}", "Z")}),
+           "Slice.BNaive": dict(_B, **{"isinstance({x}, datetime)": ("true", "B"), "{x}.tzinfo is None": ("true", "B")}),
+           "Slice.BOther": dict(_B)})}
+_PL = ["hour", "day", "week", "month", "year", "full"]
+_PC = ["Metrics.PHour", "Metrics.PDay", "Metrics.PWeek", "Metrics.PMonth", "Metrics.PYear", "Metrics.PFull"]
+PERIOD_SUM = {"PERIOD": dict(
+    coq="Metrics.period", ctors=[(c, []) for c in _PC],
+    exprs={c: {"{x} == '%s'" % lit: (("true" if lit == l else "false"), "B") for lit in _PL} for c, l in zip(_PC, _PL)})}
 # the slice step: SNone = None; SInt z = an int, or a value equal to one (True, 1.0: `x in (1, -1)` and
 # `x == -1` compare by ==); SOther = a value that is not None and equals neither 1 nor -1
 STEP_SUM = {"STEP": dict(
-    coq="stepv", ctors=[("SNone", []), ("SInt", [("z", "Z")]), ("SOther", [])],
-    exprs={"SNone": {"{x} is not None": ("false", "B"), "{x} not in (1, -1)": ("true", "B"), "{x} == -1": ("false", "B")},
-           "SInt": {"{x} is not None": ("true", "B"), "{x} not in (1, -1)": ("(negb (zmem {z} [1; (-1)]))", "B"),
+    coq="Slice.stepv", ctors=[("Slice.SNone", []), ("Slice.SInt", [("z", "Z")]), ("Slice.SOther", [])],
+    exprs={"Slice.SNone": {"{x} is not None": ("false", "B"), "{x} not in (1, -1)": ("true", "B"), "{x} == -1": ("false", "B")},
+           "Slice.SInt": {"{x} is not None": ("true", "B"), "{x} not in (1, -1)": ("(negb (zmem {z} [1; (-1)]))", "B"),
                     "{x} == -1": ("({z} =? (-1))", "B")},
-           "SOther": {"{x} is not None": ("true", "B"), "{x} not in (1, -1)": ("true", "B"),
+           "Slice.SOther": {"{x} is not None": ("true", "B"), "{x} not in (1, -1)": ("true", "B"),
                       "{x} == -1": ("false", "B")}})}
 
 SPECS += [
@@ -300,6 +307,93 @@ SPECS += [
                  args=["Z", "Z"],
                  update="(g_cache_fill_gap self_key_fields get_key key_eqb source_fetch self_ttl clock self_sink "
                         "self_key_validated self_cover self_expiry_seq self_expiry_heap {0} {1}, clock + tick)")}),
+    # ---- core.py: the fetch / overlapping wrappers.  Operands are values of an abstract type TL with their
+    # fetch (and overlapping) as function parameters.  heapq.merge is the library model merge_by, accepted
+    # only with exactly these two key lambdas.
+    dict(name="g_union_fetch", file=CORE, cls="Union", func="fetch", kind="expr", ret="LIST",
+         tyvars=["TL"], types={"TL": "TL"},
+         params=[("self_sources", "L:TL"), ("tl_fetch", "TL -> " + FETCH_T),
+                 ("start", "OZ"), ("end", "OZ"), ("reverse", "B")],
+         selfattrs={"sources": ("self_sources", "L:TL")},
+         methods={("TL", "fetch"): dict(coq="tl_fetch", args=["OZ", "OZ", "B"], fetch=True, ret="LIST")},
+         text_exprs={"heapq.merge(*streams, key=lambda e: (-e.finite_start, -e.finite_end))":
+                     ("(merge_by lt_rev streams)", "LIST"),
+                     "heapq.merge(*streams, key=lambda e: (e.finite_start, e.finite_end))":
+                     ("(merge_by lt_fwd streams)", "LIST")}),
+    dict(name="g_diff_fetch", file=CORE, cls="Difference", func="fetch", kind="expr", res=True, ret="LIST",
+         tyvars=["TL"], types={"TL": "TL"},
+         params=[("source_fetch", FETCH_T), ("self_subtractors", "L:TL"), ("tl_fetch", "TL -> " + FETCH_T),
+                 ("start", "OZ"), ("end", "OZ"), ("reverse", "B")],
+         selfattrs={"subtractors": ("self_subtractors", "L:TL")},
+         methods={("TL", "fetch"): dict(coq="tl_fetch", args=["OZ", "OZ", "B"], fetch=True, ret="LIST")},
+         calls={"self.source.fetch": ("source_fetch", ["OZ", "OZ", "B"], "LIST"),
+                "self._sweep": dict(coq="g_diff_sweep", args=["LIST", "L:LIST"], ret="LIST", res=True, fuel=True)}),
+    # Difference.overlapping returns the generator generate(): read as the generator itself
+    dict(name="g_diff_overlapping", file=CORE, cls="Difference", func="overlapping", kind="gen", res=True,
+         returned_generator="generate", tyvars=["TL"], types={"TL": "TL"},
+         params=[("source_overlapping", "Z -> list ivl"), ("self_subtractors", "L:TL"), ("tl_fetch", "TL -> " + FETCH_T),
+                 ("point", "Z")],
+         selfattrs={"subtractors": ("self_subtractors", "L:TL")},
+         methods={("TL", "fetch"): dict(coq="tl_fetch", args=["OZ", "OZ", "B"], fetch=True, ret="LIST")},
+         calls={"self.source.overlapping": ("source_overlapping", ["Z"], "LIST"),
+                "self._sweep": dict(coq="g_diff_sweep", args=["LIST", "L:LIST"], ret="LIST", res=True, fuel=True)}),
+    # Complement.overlapping: self.fetch is the complement's own fetch (a parameter)
+    dict(name="g_compl_overlapping", file=CORE, cls="Complement", func="overlapping", kind="expr", ret="LIST",
+         params=[("source_fetch", FETCH_T), ("self_fetch", FETCH_T), ("point", "Z")],
+         calls={"self.source.fetch": ("source_fetch", ["OZ", "OZ", "B"], "LIST"),
+                "self.fetch": ("self_fetch", ["OZ", "OZ", "B"], "LIST")}),
+    # Timeline.overlapping (the base implementation)
+    dict(name="g_base_overlapping", file=CORE, cls="Timeline", func="overlapping", kind="expr", ret="LIST",
+         params=[("self_fetch", FETCH_T), ("point", "Z")],
+         calls={"self.fetch": ("self_fetch", ["OZ", "OZ", "B"], "LIST")}),
+    # ---- recurrence.py: _occurrence_to_interval.  Aware datetimes are values of an abstract type DT; the
+    # datetime operations are typed library parameters (the equivalence theorem instantiates them with the
+    # zone model: mk_wall / wall_to_utc / utc_to_wall).  x.timestamp() of a whole-second datetime is an int;
+    # replace(hour=, minute=, second=) is total here (it raises ValueError for fields out of range: excluded
+    # by the theorem's hypothesis rule_accepted).
+    dict(name="g_recur_occurrence_to_interval", file="calgebra/recurrence.py", cls="RecurringPattern",
+         func="_occurrence_to_interval", kind="expr", ret="IVL", tyvars=["DT", "TD"], types={"DT": "DT", "TD": "TD"},
+         params=[("self_start_seconds", "Z"), ("self_duration_seconds", "Z"),
+                 ("dt_replace_hms", "DT -> Z -> Z -> Z -> DT"), ("dt_timestamp", "DT -> Z"),
+                 ("dt_fromtimestamp", "Z -> DT"), ("td_of_seconds", "Z -> TD"), ("dt_add", "DT -> TD -> DT"),
+                 ("interval_class", "Z -> Z -> ivl"), ("occurrence", "DT")],
+         selfattrs={"start_seconds": ("self_start_seconds", "Z"), "duration_seconds": ("self_duration_seconds", "Z")},
+         calls={"datetime.fromtimestamp": dict(coq="dt_fromtimestamp", args=["Z"], fixed={"tz": "window_start.tzinfo"},
+                                               ret="DT"),
+                "timedelta": dict(coq="td_of_seconds", args=[], kw=[("seconds", "Z")], ret="TD"),
+                "self.interval_class": dict(coq="interval_class", args=[], kw=[("start", "Z"), ("end", "Z")],
+                                            fixed={"**": "self.metadata"}, ret="IVL")},
+         methods={("DT", "replace"): dict(coq="dt_replace_hms", args=[],
+                                          kw=[("hour", "Z"), ("minute", "Z"), ("second", "Z")], ret="DT"),
+                  ("DT", "timestamp"): dict(coq="dt_timestamp", args=[], ret="Z")},
+         binops={("DT", "+", "TD"): ("dt_add", "DT")}),
+    # ---- metrics.py: _period_windows_with_dt.  `period` is the sum type of Model/Metrics.v (one constructor
+    # per literal of Period); the datetime operations are typed library parameters as above.
+    dict(name="g_period_windows_dt", file="calgebra/metrics.py", func="_period_windows_with_dt", kind="expr",
+         res=True, ret="L:WIN", tyvars=["DT", "TD"],
+         types={"DT": "DT", "TD": "TD", "WIN": "(DT * Z * Z)", "U": "unit"}, tuples={"WIN": ["DT", "Z", "Z"]},
+         sums=PERIOD_SUM, annotations={"list[tuple[datetime, int, int]]": "L:WIN"},
+         file_has=["Period = Literal['hour', 'day', 'week', 'month', 'year', 'full']",
+                   "from datetime import date, datetime, timedelta"],
+         params=[("p_fromtimestamp", "Z -> DT"), ("p_ymd", "Z -> Z -> Z -> DT"), ("p_ymdh", "Z -> Z -> Z -> Z -> DT"),
+                 ("p_hours", "Z -> TD"), ("p_days", "Z -> TD"), ("p_weeks", "Z -> TD"),
+                 ("p_add", "DT -> TD -> DT"), ("p_sub", "DT -> TD -> DT"), ("p_lt", "DT -> DT -> bool"),
+                 ("p_timestamp", "DT -> Z"), ("p_weekday", "DT -> Z"),
+                 ("p_year", "DT -> Z"), ("p_month", "DT -> Z"), ("p_day", "DT -> Z"), ("p_hour", "DT -> Z"),
+                 ("start_ts", "Z"), ("end_ts", "Z"), ("period", "PERIOD")],
+         text_exprs={"ZoneInfo(tz)": ("tt", "U")},
+         calls={"datetime.fromtimestamp": dict(coq="p_fromtimestamp", args=["Z"], fixed={"tz": "zone"}, ret="DT"),
+                "datetime": [dict(coq="p_ymdh", args=["Z", "Z", "Z", "Z"], fixed={"tzinfo": "zone"}, ret="DT"),
+                             dict(coq="p_ymd", args=["Z", "Z", "Z"], fixed={"tzinfo": "zone"}, ret="DT")],
+                "timedelta": [dict(coq="p_hours", args=[], kw=[("hours", "Z")], ret="TD"),
+                              dict(coq="p_days", args=[], kw=[("days", "Z")], ret="TD"),
+                              dict(coq="p_weeks", args=[], kw=[("weeks", "Z")], ret="TD")]},
+         methods={("DT", "timestamp"): dict(coq="p_timestamp", args=[], ret="Z"),
+                  ("DT", "weekday"): dict(coq="p_weekday", args=[], ret="Z")},
+         attrs={("DT", "year"): ("p_year", "Z"), ("DT", "month"): ("p_month", "Z"), ("DT", "day"): ("p_day", "Z"),
+                ("DT", "hour"): ("p_hour", "Z")},
+         binops={("DT", "+", "TD"): ("p_add", "DT"), ("DT", "-", "TD"): ("p_sub", "DT")},
+         cmpops={("DT", "<", "DT"): "p_lt"}),
 ]
 
 
